@@ -79,12 +79,12 @@ def alias_roots(fi, name_node, depth=0):
 def check(ctx):
     ctx.consult('trs/trs.py', 'config/master_config.py', 'tract/tract.py',
                 'plssdesc/plss_preprocess.py', 'plssdesc/plss_parse.py')
-    _globals_inventory(ctx)
-    _class_writes(ctx)
-    _mutable_defaults(ctx)
-    calltime_defaults(ctx)
-    _escape(ctx)
-    _cache_purity(ctx)
+    ctx.attempt(_globals_inventory)
+    ctx.attempt(_class_writes)
+    ctx.attempt(_mutable_defaults)
+    ctx.attempt(calltime_defaults)
+    ctx.attempt(_escape)
+    ctx.attempt(_cache_purity)
 
 
 def _module_mutables(ctx):
